@@ -59,6 +59,20 @@ A failure under a deviation is reported (with the suffix) only if it is about th
 family face order) must neither show the same clause failing on the same minimal singularity set nor produce the same class on the same
 mesh for another singularity set of that size (ring / face order breaks ties between equally short paths, so WHICH sets run into a known
 defect of the plain code may change); otherwise it is counted (deviation_failure_also_on_plain_configuration) and left to the main tasks.
+
+Documented defaults / call forms (tasks with "defaults").  All the tasks above pass every option explicitly by keyword.  The documented signatures of the
+entry points the property is exercised through are pinned in DOC_SIGNATURES (copied from the unchanged tree, never read from the library at run time):
+  * defaults.signature: inspect.signature() of each entry point (and of the three path functions the cutter itself calls positionally / with an omitted
+    option) against the table - a default value, position or kind that differs from the documented one is the defect (class = the parameter);
+  * defaults.omitted / defaults.positional / defaults.keyword / defaults.started_by_call: on a subset of the configurations SingularityCutter is built with each
+    option omitted (alone, all together), with the options passed positionally in the documented order (documented defaults and other values), with everything
+    (the mesh too) passed by keyword in reverse order, and started by calling the object instead of run(); every form must give exactly the outputs (cut mesh,
+    ref_vertex, cut_edges, cut_adj, cut_graph) and exactly the printed text of the fully explicit keyword form of the meaning the documented signature gives it
+    (fresh objects each time; deterministic code).  FaceSpanningTree / FaceSpanningForest are built in the same forms with forbidden_edges = the reported cuts
+    (as the library's callers do) and = the sides of face 0 (a set that cuts a face off): the faces reached must be the ones an own incidence computation
+    reaches without crossing a forbidden edge (an omitted / None root is drawn at random by the library: any one component is accepted); traverse(),
+    traverse("BFS") and traverse(order="BFS") must give the same sequence.  class = the omitted parameter | several_options_together | positional_upto:<last
+    positional parameter>[...] | all_by_keyword | call_instead_of_run.
 """
 from __future__ import annotations
 import itertools
@@ -68,7 +82,8 @@ from mc import families as F
 ID = "C16"
 TECHNIQUE = ("bounded-exhaustive enumeration of (connected surface, coordinates, singularity set, feature mode) "
              "run through the real SingularityCutter vs an independent combinatorial-topology oracle; explicit-state BFS over the "
-             "call histories of one cutter object vs a fresh twin")
+             "call histories of one cutter object vs a fresh twin; exhaustive argument forms of the entry points (omitted / keyword / positional / call) vs the "
+             "pinned table of documented signatures")
 RULE = ("one case = (family member, coordinate alphabet [ties|generic], feature mode [none|border-only detector|full "
         "detector], singularity set) run on a freshly built mesh; singularity sets = every vertex subset up to the "
         "size bound, smallest first, plus the set of all vertices; distinct = different (faces, coordinates, feature "
@@ -76,7 +91,9 @@ RULE = ("one case = (family member, coordinate alphabet [ties|generic], feature 
         "than one border loop, or a singular vertex off the border). History cases: one case = (configuration, state of one cutter "
         "object reached by a history of public calls after run(), next call); states are distinct by the canonical key of all fields of "
         "the cutter and of the caller's objects. Deviation cases: one case = (case of a fixed subset of the above, deviation) with deviation in {coordinates x 2^-200, "
-        "coordinates x 2^200, config.sort_neighborhoods=False, face k listed first for every k, the last two combined}")
+        "coordinates x 2^200, config.sort_neighborhoods=False, face k listed first for every k, the last two combined}. Call-form cases: one case = "
+        "(configuration of a fixed subset, call form of SingularityCutter / FaceSpanningTree / FaceSpanningForest / traverse out of the pinned list) compared with "
+        "the fully explicit keyword form of the same documented meaning")
 ASSUMPTIONS = [
     "inputs are connected oriented manifold triangle complexes within the size bounds (disconnected members are filtered and counted)",
     "singularities are passed as a list of distinct python ints; the detector is the library's own FeatureEdgeDetector run on the same mesh (verbose off)",
@@ -98,6 +115,12 @@ ASSUMPTIONS = [
     "detector, which is C15's subject, returns another feature set on the scaled mesh; other exponents are not enumerated",
     "deviation tasks run a fixed subset of the families (see BOUNDS); deviations are not combined with each other except face order x sort_neighborhoods; "
     "mouette.config switches other than sort_neighborhoods are left at their defaults",
+    "documented defaults (tables DOC_SIGNATURES / DOC_SIGNATURES_RELIED_ON, copied from the signatures and docstrings of the unchanged tree: features=None, "
+    "verbose=False; starting_face=None, forbidden_edges=None; order='BFS'; weights='length', export_path_mesh=False) are the reference: a signature that differs "
+    "from the table is reported as a violation of C16.defaults.signature; the behavioural sweep of the call forms compares with the explicit keyword form run on "
+    "fresh objects and demands identical outputs and identical text on sys.stdout (verbose mode prints, the documented default is silent); the return value "
+    "of calling the cutter is not judged; an omitted starting face is drawn with random.randint (seeded from VERIF_SEED, state restored): only seed-independent facts are demanded; "
+    "FeatureEdgeDetector's own defaults are C15's subject, shortest-path defaults C09's (signature guard only here)",
 ]
 BOUNDS = {
     "quick": "singularity sets: every subset of <=2 vertices + all vertices. SURF triangles n<=5, all 434 connected labelled complexes x {lattice, moment curve} x "
@@ -111,13 +134,17 @@ BOUNDS = {
              "Deviations {coordinates x 2^-200, x 2^200, sort_neighborhoods=False}: triangle + 8 SURF(4..5) classes + 27 SURF(6) classes (sets <=2), grids 3x3 4x4 flat / fold / bump / plateau, "
              "8 holey 3x3 grids, pair of pants, octahedron, icosahedron, 7-vertex torus, torus 3x3, torus 3x3 minus 1 face (sets <=1 + chosen pairs + all), x {no detector, full detector} "
              "x both alphabets; 9 call-history tasks each (classes, grid 3x3 flat / fold, octahedron, torus 3x3). Face order (every face first in turn) x sort_neighborhoods {True, False}: "
-             "the same classes, grid 3x3 flat / fold / bump, octahedron, torus 3x3, 7-vertex torus on the lattice alphabet (6-8 chosen sets; sets <=2 on <=5 vertices)",
+             "the same classes, grid 3x3 flat / fold / bump, octahedron, torus 3x3, 7-vertex torus on the lattice alphabet (6-8 chosen sets; sets <=2 on <=5 vertices). "
+             "Documented defaults / call forms: signature guard on 8 entry points; 9 call forms of SingularityCutter + 16 of FaceSpanningTree / FaceSpanningForest + 4 of traverse on the "
+             "triangle + 8 SURF(4..5) classes + 9 SURF(6) classes + octahedron + torus 3x3 x {no detector, full detector}, grid 3x3 flat x {none, border-only}, pair of pants, "
+             "grid 3x3 fold / bump, grid 4x4 plateau x full detector, lattice alphabet (sets <=2 on <=6 vertices, else <=1 + chosen pairs + all; tree forms on sets <=1 and all)",
     "thorough": "singularity sets: every subset of <=3 vertices + all vertices (<=2 on the 4x4 grids with 2 faces removed, the pairs of pants and the tori with faces removed). "
                 "As quick, plus: the 15 transposition relabelings of every SURF(6) class; grids 3x3 3x4 3x5 4x4 4x5 5x5 x {tri, tri2}; 4x4 grid with <=2 faces removed; "
                 "4 pairs of pants; torus 3x3 minus <=2 faces, torus 3x4 minus 1 face. Call histories: <= 4 state-changing calls deep; SURF(<=5) classes on both alphabets, "
                 "SURF(6) classes with sets <=2, grids 3x3 3x4 4x4 5x5 with sets <=1, all 71 holey 3x3 grids, closed specimens with sets <=1, 3 tori minus 1 face. "
                 "Deviations as quick plus grids 3x4 5x5, 'tri2' grids, 24 holey 3x3 grids on both alphabets, 3 tori minus 1 face, histories of the SURF(6) classes and of the 7-vertex torus; "
-                "face order on both alphabets with sets <=2 on the SURF(6) classes, plus grid 4x4 plateau and the holey grids with a fold",
+                "face order on both alphabets with sets <=2 on the SURF(6) classes, plus grid 4x4 plateau and the holey grids with a fold; "
+                "call forms on both alphabets and on all 27 SURF(6) classes",
 }
 PINNED = {"surf3": 2, "surf4": 22, "surf5": 410, "surf6c": 28}
 UNIT_EXPONENTS = (-200, 200)        # unit-of-length deviation: every coordinate x 2^e (measured range of the unchanged tree: see BOUNDS)
@@ -415,6 +442,21 @@ def tasks(tier):
         if thorough:
             add([["grid", 4, 4, "tri", "plateau"]], feats=("detect",), smax_="few", **dev)
             add([["holey", 3, 3, "tri", "fold", m] for m in dmasks], feats=("detect",), smax_="few", **dev)
+    # ---- documented defaults / call forms (see "Documented defaults" in the module docstring)
+    out.append({"defaults": "signature"})
+    dgeoms = GEOMS if thorough else ("ties",)
+    for geom in dgeoms:
+        for feat in nd:
+            for i in range(0, len(hm), 5):
+                out.append({"defaults": "forms", "meshes": hm[i:i + 5], "geom": geom, "feat": feat})
+            for i in range(0, len(sixc), 9):
+                if thorough or i == 0:
+                    out.append({"defaults": "forms", "meshes": sixc[i:i + 9], "geom": geom, "feat": feat})
+            out.append({"defaults": "forms", "meshes": [["named", "octahedron"], ["torus", 3, 3, 0]], "geom": geom, "feat": feat})
+        out.append({"defaults": "forms", "meshes": [["grid", 3, 3, "tri", "flat"], ["holey", 5, 5, "tri", "flat", pants[0]]], "geom": geom, "feat": "none"})
+        out.append({"defaults": "forms", "meshes": [["grid", 3, 3, "tri", "flat"]], "geom": geom, "feat": "border"})
+        out.append({"defaults": "forms", "meshes": [["grid", 3, 3, "tri", "fold"], ["grid", 3, 3, "tri", "bump"], ["grid", 4, 4, "tri", "plateau"]],
+                    "geom": geom, "feat": "detect"})
     return out
 
 
@@ -1324,6 +1366,361 @@ def run_history_task(task, rep: Report, M, unit, sort):
                 rep.violation("C16." + fail["sub"], fail["callee"], fail["kind"], cls, detail)
 
 
+# ------------------------------------------------------------------------------------------ documented defaults / call forms
+# Every other task passes every option of every entry point explicitly by keyword.  Here every option is OMITTED (one at a time, all
+# together), passed POSITIONALLY in the documented order, passed by KEYWORD (the mesh too), and the cutter is started by calling it.
+# The expectation of a form is the result of the fully explicit keyword form of the meaning the DOCUMENTED signature gives it
+# (same mesh combinatorics, fresh objects, same container form of the singular vertices; deterministic code => identical outputs,
+# identical printed text).  The documented signatures are pinned below (copied from the signatures / docstrings of the unchanged
+# tree, never read from the library at run time) and compared with inspect.signature() as a guard of its own.
+REQUIRED = "<required>"
+DOC_SIGNATURES = {            # entry points whose call forms are swept behaviourally: parameters in the documented order, documented defaults
+    "SingularityCutter.__init__": [("mesh", REQUIRED), ("singularities", REQUIRED), ("features", None), ("verbose", False)],
+    "FaceSpanningTree.__init__": [("mesh", REQUIRED), ("starting_face", None), ("forbidden_edges", None)],
+    "FaceSpanningForest.__init__": [("mesh", REQUIRED), ("forbidden_edges", None)],
+    "SpanningTree.traverse": [("order", "BFS")],
+    "SpanningForest.traverse": [("order", "BFS")],
+}
+DOC_SIGNATURES_RELIED_ON = {  # called by the cutter itself (positional mesh / start / targets, weights by keyword, export_path_mesh omitted): signature only
+    "shortest_path": [("mesh", REQUIRED), ("start", REQUIRED), ("targets", REQUIRED), ("weights", "length"), ("export_path_mesh", False)],
+    "shortest_path_to_vertex_set": [("mesh", REQUIRED), ("start", REQUIRED), ("targets", REQUIRED), ("weights", "length"), ("export_path_mesh", False)],
+    "shortest_path_to_border": [("mesh", REQUIRED), ("start", REQUIRED), ("weights", "length"), ("export_path_mesh", False)],
+}
+CUTTER_INIT = "SingularityCutter.__init__"
+OBS_KEYS = ("out_faces", "out_pts", "ref", "cut_raw", "cut_adj", "cut_graph")
+# call forms of the constructor.  args / kw: what follows (mesh, singularities); the string "fd" stands for the detector object of the task
+# (None in the tasks without detector).  features / verbose: the meaning of the form under the DOCUMENTED signature.
+CUTTER_FORMS = [
+    {"sub": "omitted", "cls": "verbose", "args": [], "kw": {"features": "fd"}, "features": "fd", "verbose": False, "omits": ["verbose"],
+     "text": "SingularityCutter(mesh, S, features=fd)"},
+    {"sub": "omitted", "cls": "features", "args": [], "kw": {"verbose": False}, "features": None, "verbose": False, "omits": ["features"],
+     "text": "SingularityCutter(mesh, S, verbose=False)"},
+    {"sub": "omitted", "cls": "several_options_together", "args": [], "kw": {}, "features": None, "verbose": False, "omits": ["features", "verbose"],
+     "text": "SingularityCutter(mesh, S)"},
+    {"sub": "positional", "cls": "positional_upto:features:with_omissions", "args": ["fd"], "kw": {}, "features": "fd", "verbose": False,
+     "omits": ["verbose"], "positional": ["features"], "text": "SingularityCutter(mesh, S, fd)"},
+    {"sub": "positional", "cls": "positional_upto:verbose", "args": ["fd", False], "kw": {}, "features": "fd", "verbose": False,
+     "positional": ["features", "verbose"], "text": "SingularityCutter(mesh, S, fd, False)"},
+    {"sub": "positional", "cls": "positional_upto:verbose", "args": ["fd", True], "kw": {}, "features": "fd", "verbose": True,
+     "positional": ["features", "verbose"], "text": "SingularityCutter(mesh, S, fd, True)"},
+    {"sub": "positional", "cls": "positional_upto:verbose", "args": [None, False], "kw": {}, "features": None, "verbose": False,
+     "positional": ["features", "verbose"], "text": "SingularityCutter(mesh, S, None, False)"},
+    {"sub": "keyword", "cls": "all_by_keyword", "args": [], "kw": {"features": "fd", "verbose": False}, "mesh_kw": True, "features": "fd", "verbose": False,
+     "text": "SingularityCutter(verbose=False, features=fd, singularities=S, mesh=mesh)"},
+    {"sub": "started_by_call", "cls": "call_instead_of_run", "args": [], "kw": {"features": "fd", "verbose": False}, "start": "call",
+     "features": "fd", "verbose": False, "text": "SingularityCutter(mesh, S, features=fd, verbose=False)()"},
+]
+
+
+def _signature_callables():
+    from mouette.processing import cutting, paths
+    from mouette.processing.trees import base, face_sp
+    return {"SingularityCutter.__init__": cutting.SingularityCutter.__init__, "FaceSpanningTree.__init__": face_sp.FaceSpanningTree.__init__,
+            "FaceSpanningForest.__init__": face_sp.FaceSpanningForest.__init__, "SpanningTree.traverse": base.SpanningTree.traverse,
+            "SpanningForest.traverse": base.SpanningForest.traverse, "shortest_path": paths.shortest_path,
+            "shortest_path_to_vertex_set": paths.shortest_path_to_vertex_set, "shortest_path_to_border": paths.shortest_path_to_border}
+
+
+def check_signatures(rep: Report):
+    """The library's signatures against the pinned tables: a default that differs from the documented one, or a documented parameter
+    that sits at another position, IS the defect (cheap guard next to the behavioural sweep of the call forms)."""
+    import inspect
+    o = call(_signature_callables)
+    if not o.ok:
+        rep.violation("C16.defaults.signature", "mouette.processing", exc_kind(o), "entry_point_missing", {"msg": o.msg})
+        return
+    fns = o.value
+    for callee, doc in list(DOC_SIGNATURES.items()) + list(DOC_SIGNATURES_RELIED_ON.items()):
+        rep.traces += 1; rep.transitions += 1
+        o = call(lambda: [p for p in inspect.signature(fns[callee]).parameters.values() if p.name != "self"])
+        if not o.ok:
+            rep.violation("C16.defaults.signature", callee, exc_kind(o), "signature", {"msg": o.msg})
+            continue
+        params = o.value
+        got = [(p.name, REQUIRED if p.default is inspect.Parameter.empty else p.default) for p in params
+               if p.kind not in (inspect.Parameter.VAR_POSITIONAL, inspect.Parameter.VAR_KEYWORD)]
+        names = [g[0] for g in got]
+        det = {"documented": [[a, repr(b)] for a, b in doc], "library": [[a, repr(b)] for a, b in got]}
+        for i, (p, d) in enumerate(doc):
+            rep.evaluations += 1
+            rep.flag(f"defaults:signature:{callee}:{p}")
+            if p not in names:
+                rep.violation("C16.defaults.signature", callee, "mismatch:parameter_missing", p, det)
+                continue
+            if names.index(p) != i:
+                rep.violation("C16.defaults.signature", callee, "mismatch:parameter_order", p, det)
+            if [q for q in params if q.name == p][0].kind is not inspect.Parameter.POSITIONAL_OR_KEYWORD:
+                rep.violation("C16.defaults.signature", callee, "mismatch:parameter_kind", p, det)
+            gd = got[names.index(p)][1]
+            if not (type(gd) is type(d) and gd == d):
+                rep.violation("C16.defaults.signature", callee, "mismatch:default_value", p, det)
+        known = set(p for p, _ in doc)
+        for p, d in got:
+            if p not in known and isinstance(d, str) and d == REQUIRED:      # a new parameter without default breaks every documented call
+                rep.violation("C16.defaults.signature", callee, "mismatch:new_required_parameter", p, det)
+
+
+class DefaultsSweep:
+    """Call forms of one configuration (mesh, geometry, detector mode, singular vertices)."""
+
+    def __init__(self, ses, spec, geom, feat, S):
+        self.ses, self.spec, self.geom, self.feat, self.S = ses, spec, geom, feat, list(S)
+        self.name, self.pts, self.faces, self.T = ses.input(spec, geom)
+        self.views = not self.T.expect_uncut(S)
+        self.explicit = {}
+
+    def run_form(self, form):
+        """Fresh mesh -> (detector) -> the constructor called in the given form -> run() / call -> every output + the printed text."""
+        import contextlib
+        import io
+        M = self.ses.M
+        res, m, fd = self.ses.prepare(self.spec, self.geom, self.feat)
+        if "skip" in res:
+            return {"skip": res["skip"]}
+        sub = lambda x: fd if (isinstance(x, str) and x == "fd") else x
+        args = [sub(x) for x in form["args"]]
+        kw = {k: sub(v) for k, v in form["kw"].items()}
+        Sarg = list(self.S)
+        SC = M.processing.SingularityCutter
+        buf = io.StringIO()
+        callee = CUTTER_INIT
+        with contextlib.redirect_stdout(buf):                 # sys.stdout is put back by the context manager whatever happens
+            if form.get("mesh_kw"):
+                o = call(lambda: SC(**dict(reversed(list(dict(mesh=m, singularities=Sarg, **kw).items())))))
+            else:
+                o = call(lambda: SC(m, Sarg, *args, **kw))
+            if o.ok:
+                cutter = o.value
+                if form.get("start") == "call":
+                    callee = "SingularityCutter.__call__"
+                    o = call(cutter)
+                else:
+                    callee = "SingularityCutter.run"
+                    o = call(cutter.run)
+        out = {"printed": buf.getvalue(), "feature_path": False, "fcls": res["fcls"]}
+        if not o.ok:
+            out.update({"raised": exc_kind(o), "msg": o.msg, "raised_in": callee})
+            return out
+        obs, err = _observe(m, cutter, want_views=self.views)
+        if err is not None:
+            out.update({"raised": exc_kind(err[1]), "msg": err[1].msg, "raised_in": "SingularityCutter." + err[0]})
+            return out
+        out["obs"] = obs
+        out["feature_path"] = bool(getattr(cutter, "_has_features", False))
+        return out
+
+    def explicit_form(self, features, verbose):
+        """The fully explicit keyword form of a meaning: SingularityCutter(mesh, S, features=..., verbose=...).run()."""
+        key = (features, verbose)
+        if key not in self.explicit:
+            self.explicit[key] = self.run_form({"args": [], "kw": {"features": features, "verbose": verbose}})
+        return self.explicit[key]
+
+    def detail(self, form_text, extra):
+        T = self.T
+        d = {"mesh": self.name, "points": [list(p) for p in self.pts], "faces": [list(f) for f in T.faces], "singularities": list(self.S),
+             "singularities_passed_as": "list", "geometry": self.geom, "topology": T.topo_class(),
+             "fd (detector object of the call forms)": {"none": None, "border": "FeatureEdgeDetector(only_border=True, verbose=False) run on the mesh",
+                                                        "detect": "FeatureEdgeDetector(verbose=False) run on the mesh"}[self.feat],
+             "call_form": form_text, "documented_signatures": {k: [[a, repr(b)] for a, b in v] for k, v in DOC_SIGNATURES.items()}}
+        d.update(extra)
+        return d
+
+    # ------------------------------------------------------------------------------------------ the constructor of the cutter
+    def cutter_forms(self, rep):
+        for form in CUTTER_FORMS:
+            feats = form["features"] if self.feat != "none" else None
+            if self.feat == "none" and form["args"][:1] == [None]:
+                continue                                                    # the same call as the form with fd (= None here)
+            want = self.explicit_form(feats, form["verbose"])
+            if "skip" in want:
+                rep.count(want["skip"]); return
+            if "obs" not in want:
+                rep.count("defaults:explicit_form_raised"); continue         # reported by the main cases
+            got = self.run_form(form)
+            rep.traces += 1; rep.transitions += 2; rep.evaluations += 1
+            callee = "SingularityCutter.__call__" if form.get("start") == "call" else CUTTER_INIT
+            subcheck = "C16.defaults." + form["sub"]
+            explicit_text = "SingularityCutter(mesh, S, features=%s, verbose=%r).run()" % ("fd" if feats == "fd" else None, form["verbose"])
+            kind, extra = None, {}
+            if "raised" in got:
+                kind, extra = got["raised"], {"msg": got["msg"], "raised_in": got["raised_in"]}
+            else:
+                for k in OBS_KEYS:
+                    if got["obs"].get(k) != want["obs"].get(k):
+                        kind = "mismatch:%s_differs_from_explicit_form" % {"out_faces": "output_mesh", "out_pts": "output_mesh", "ref": "ref_vertex",
+                                                                           "cut_raw": "cut_edges"}.get(k, k)
+                        extra = {"output": k, "got": got["obs"].get(k), "explicit_form_gives": want["obs"].get(k)}
+                        break
+                if kind is None and got["printed"] != want["printed"]:
+                    kind = "mismatch:printed_text_differs_from_explicit_form"
+                    extra = {"printed": got["printed"][:400], "explicit_form_prints": want["printed"][:400]}
+            if kind is not None:
+                extra["same_meaning_under_the_documented_signature"] = explicit_text
+                rep.violation(subcheck, callee, kind, form["cls"], self.detail(form["text"], extra))
+            # ---- bookkeeping: which entries of the table were exercised, and where the value of the option matters
+            matters = {}
+            if self.feat != "none":
+                other = self.explicit_form(None if feats == "fd" else "fd", form["verbose"])
+                matters["features"] = "obs" in other and any(other["obs"].get(k) != want["obs"].get(k) for k in OBS_KEYS)
+            other = self.explicit_form(feats, not form["verbose"])
+            matters["verbose"] = other.get("printed") != want["printed"]
+            loud, quiet = (want, other) if form["verbose"] else (other, want)
+            if loud.get("printed") and quiet.get("printed") == "":
+                rep.flag("defaults:verbose=True_prints_and_verbose=False_is_silent")
+            for p in form.get("omits", ()):
+                rep.flag(f"defaults:{'omitted_alone' if len(form['omits']) == 1 and not form.get('positional') else 'omitted_together'}:{CUTTER_INIT}:{p}")
+                if matters.get(p):
+                    rep.flag(f"defaults:omitted_where_it_matters:{CUTTER_INIT}:{p}")
+            for p in form.get("positional", ()):
+                rep.flag(f"defaults:positional:{CUTTER_INIT}:{p}")
+                if matters.get(p):
+                    rep.flag(f"defaults:positional_where_it_matters:{CUTTER_INIT}:{p}")
+            if form.get("mesh_kw"):
+                rep.flag("defaults:mesh_by_keyword")
+            if form.get("start") == "call":
+                rep.flag("defaults:started_by_call")
+            if want["feature_path"]:
+                rep.flag("defaults:cutter_took_feature_path")
+
+    # ------------------------------------------------------------------------------------------ the face traversals handed the reported cuts
+    def tree_forms(self, rep):
+        """FaceSpanningTree / FaceSpanningForest (forbidden_edges = cutter.cut_edges, as the library's own callers do) and traverse() in
+        every call form.  Expectation: own incidence code - the faces that can be reached without crossing a forbidden edge."""
+        import os
+        import random
+        M = self.ses.M
+        T = self.T
+        res, m, fd = self.ses.prepare(self.spec, self.geom, self.feat)
+        if "skip" in res:
+            return
+        o = call(lambda: M.processing.SingularityCutter(m, list(self.S), features=fd, verbose=False))
+        if o.ok:
+            cutter = o.value
+            o = call(cutter.run)
+        if not o.ok:
+            rep.count("defaults:explicit_form_raised"); return
+        ce = cutter.cut_edges
+        ne = len(m.edges)
+        if ce is None or any((not 0 <= int(e) < ne) for e in ce):
+            rep.count("defaults:cut_edges_invalid"); return               # reported by the main cases
+        cut = set(tuple(sorted(int(x) for x in m.edges[int(e)])) for e in ce)
+        dual = lambda forb: [(T.he[(a, b)][0], T.he[(b, a)][0]) for (a, b) in T.interior if (a, b) not in forb]
+        nf = len(T.faces)
+        expect = {}
+        f0 = T.faces[0]
+        sides = set(tuple(sorted((f0[k], f0[(k + 1) % 3]))) for k in range(3))
+        side_ids = set(e for e in range(ne) if tuple(sorted(int(x) for x in m.edges[e])) in sides)       # a forbidden set that cuts face 0 off
+        fsets = {"cuts": ce, "sides": side_ids, "nothing": None}
+        for what, forb in (("cuts", cut), ("sides", sides), ("nothing", set())):
+            pairs = dual(forb)
+            expect[what] = (sorted(sorted(c) for c in F.components(nf, pairs)), set(tuple(sorted(p)) for p in pairs))
+        TR = M.processing.trees
+        # (callee, subcheck, class, constructor, forbidden, root: 0 | "any" | "forest", exercised entries)
+        forms = [
+            ("FaceSpanningTree.__init__", "positional", "positional_upto:forbidden_edges", lambda fe: TR.FaceSpanningTree(m, 0, fe), "cuts", 0,
+             ["positional:starting_face", "positional:forbidden_edges"], "FaceSpanningTree(mesh, 0, cutter.cut_edges)"),
+            ("FaceSpanningTree.__init__", "keyword", "all_by_keyword", lambda fe: TR.FaceSpanningTree(forbidden_edges=fe, starting_face=0, mesh=m), "cuts", 0,
+             ["mesh_by_keyword"], "FaceSpanningTree(forbidden_edges=cutter.cut_edges, starting_face=0, mesh=mesh)"),
+            ("FaceSpanningTree.__init__", "omitted", "starting_face", lambda fe: TR.FaceSpanningTree(m, forbidden_edges=fe), "cuts", "any",
+             ["omitted_alone:starting_face"], "FaceSpanningTree(mesh, forbidden_edges=cutter.cut_edges)"),
+            ("FaceSpanningTree.__init__", "omitted", "forbidden_edges", lambda fe: TR.FaceSpanningTree(m, 0), "nothing", 0,
+             ["omitted_alone:forbidden_edges"], "FaceSpanningTree(mesh, 0)"),
+            ("FaceSpanningTree.__init__", "omitted", "several_options_together", lambda fe: TR.FaceSpanningTree(m), "nothing", "any",
+             ["omitted_together:starting_face", "omitted_together:forbidden_edges"], "FaceSpanningTree(mesh)"),
+            ("FaceSpanningTree.__init__", "positional", "positional_upto:forbidden_edges:documented_defaults", lambda fe: TR.FaceSpanningTree(m, None, None),
+             "nothing", "any", ["positional:starting_face", "positional:forbidden_edges"], "FaceSpanningTree(mesh, None, None)"),
+            ("FaceSpanningForest.__init__", "positional", "positional_upto:forbidden_edges", lambda fe: TR.FaceSpanningForest(m, fe), "cuts", "forest",
+             ["positional:forbidden_edges"], "FaceSpanningForest(mesh, cutter.cut_edges)"),
+            ("FaceSpanningForest.__init__", "keyword", "all_by_keyword", lambda fe: TR.FaceSpanningForest(forbidden_edges=fe, mesh=m), "cuts", "forest",
+             ["mesh_by_keyword"], "FaceSpanningForest(forbidden_edges=cutter.cut_edges, mesh=mesh)"),
+            ("FaceSpanningForest.__init__", "omitted", "forbidden_edges", lambda fe: TR.FaceSpanningForest(m), "nothing", "forest",
+             ["omitted_alone:forbidden_edges"], "FaceSpanningForest(mesh)"),
+            ("FaceSpanningForest.__init__", "positional", "positional_upto:forbidden_edges:documented_defaults", lambda fe: TR.FaceSpanningForest(m, None),
+             "nothing", "forest", ["positional:forbidden_edges"], "FaceSpanningForest(mesh, None)"),
+        ]
+        # the forms that are handed a forbidden set are run a second time with the sides of face 0 (which cut it off) instead of the cuts
+        forms += [(c_, s_, cl_, mk, "sides", r_, en_, tx.replace("cutter.cut_edges", "{ids of the sides of face 0}")) for (c_, s_, cl_, mk, fb, r_, en_, tx) in forms if fb == "cuts"]
+        state = random.getstate()
+        random.seed(int(os.environ.get("VERIF_SEED", 0)))       # an omitted starting face is drawn at random: only seed-independent facts are demanded
+        try:
+            for callee, sub, cls, make, forb, root, entries, text in forms:
+                comps, crossable = expect[forb]
+                rep.traces += 1; rep.transitions += 2; rep.evaluations += 1
+                kind, extra = None, {}
+                o = call(lambda: make(fsets[forb])())
+                if o.ok:
+                    built = o.value
+                    tl = list(built.trees) if root == "forest" else [built]
+                    o = call(lambda: [list(t.traverse()) for t in tl])
+                if not o.ok:
+                    kind, extra = exc_kind(o), {"msg": o.msg}
+                else:
+                    reached = sorted(sorted(int(n) for n, _ in tr) for tr in o.value)
+                    links = [tuple(sorted((int(n), int(p)))) for tr in o.value for n, p in tr if p is not None]
+                    ok = (reached == comps) if root == "forest" else (len(reached) == 1 and reached[0] in comps and (root == "any" or root in reached[0]))
+                    if not ok:
+                        kind, extra = "mismatch:faces_reached", {"reached": reached, "components_of_the_faces_when_the_forbidden_edges_are_not_crossed": comps}
+                    elif any(l not in crossable for l in links):
+                        kind, extra = "mismatch:link_crosses_a_forbidden_edge", {"links": [l for l in links if l not in crossable][:6]}
+                    if len(comps) > 1:
+                        rep.flag("defaults:forbidden_edges_separate_faces")
+                    if forb == "cuts" and len(expect["cuts"][1]) != len(expect["nothing"][1]):
+                        rep.flag("defaults:forbidden_edges_matter")
+                if kind is not None:
+                    extra.update({"forbidden_edges (vertex pairs)": sorted({"cuts": cut, "sides": sides, "nothing": set()}[forb])})
+                    rep.violation("C16.defaults." + sub, callee, kind, cls, self.detail(text, extra))
+                for e_ in entries:
+                    rep.flag(f"defaults:{e_}" if e_ == "mesh_by_keyword" else "defaults:%s:%s:%s" % (e_.split(":")[0], callee, e_.split(":")[1]))
+            # ---- traverse(order="BFS"): omitted == positional == keyword, on the tree and on the forest built from the reported cuts
+            for callee, make in (("SpanningTree.traverse", lambda: TR.FaceSpanningTree(m, 0, forbidden_edges=ce)()),
+                                 ("SpanningForest.traverse", lambda: TR.FaceSpanningForest(m, forbidden_edges=ce)())):
+                o = call(make)
+                if not o.ok:
+                    rep.count("defaults:explicit_form_raised"); continue     # reported by the call histories
+                t = o.value
+                rep.traces += 1; rep.transitions += 4; rep.evaluations += 2
+                ex = call(lambda: [(int(n), None if p is None else int(p)) for n, p in t.traverse(order="BFS")])
+                if not ex.ok:
+                    rep.count("defaults:explicit_form_raised"); continue
+                for sub, cls, fn, text in (("omitted", "order", lambda: t.traverse(), "traverse()"), ("positional", "positional_upto:order", lambda: t.traverse("BFS"), "traverse('BFS')")):
+                    o = call(lambda: [(int(n), None if p is None else int(p)) for n, p in fn()])
+                    if not o.ok:
+                        rep.violation("C16.defaults." + sub, callee, exc_kind(o), cls, self.detail(text, {"msg": o.msg}))
+                    elif o.value != ex.value:
+                        rep.violation("C16.defaults." + sub, callee, "mismatch:sequence_differs_from_explicit_form", cls,
+                                      self.detail(text, {"got": o.value, "traverse(order='BFS') gives": ex.value}))
+                    rep.flag("defaults:%s:%s:order" % ("omitted_alone" if sub == "omitted" else "positional", callee))
+                o = call(lambda: [(int(n), None if p is None else int(p)) for n, p in t.traverse(order="DFS")])
+                if o.ok and o.value != ex.value:
+                    rep.flag("defaults:omitted_where_it_matters:%s:order" % callee)
+        finally:
+            random.setstate(state)
+
+
+def run_defaults_task(task, rep: Report, M):
+    if task["defaults"] == "signature":
+        check_signatures(rep)
+        return
+    geom, feat = task["geom"], task["feat"]
+    ses = Session(M, rep)
+    for spec in task["meshes"]:
+        name, pts, faces, T = ses.input(spec, geom)
+        if T is None:
+            rep.count("filtered_not_connected_manifold")
+            continue
+        rep.count("defaults_meshes")
+        for S in _deviation_sets(T):
+            sweep = DefaultsSweep(ses, spec, geom, feat, S)
+            sweep.cutter_forms(rep)
+            if T.expect_uncut(S) or len(S) <= 1 or len(S) == T.n:
+                sweep.tree_forms(rep)
+            rep.count("defaults_configurations")
+            rep.flag("defaults:topo:" + T.topo_coarse())
+            if T.nontrivial(S):
+                rep.case(("defaults", name, geom, feat, tuple(S)))
+
+
 def _rings(M, pts, faces, sort):
     """Vertex rings of a freshly built mesh under one value of the switch (vacuity guard: the switch has an effect)."""
     old = M.config.sort_neighborhoods
@@ -1344,7 +1741,9 @@ def run_task(task, rep: Report):
     old = M.config.sort_neighborhoods
     M.config.sort_neighborhoods = sort
     try:
-        if task.get("history"):
+        if task.get("defaults"):
+            run_defaults_task(task, rep, M)
+        elif task.get("history"):
             run_history_task(task, rep, M, unit, sort)
         else:
             run_main_task(task, rep, M, unit, sort)
@@ -1416,6 +1815,22 @@ def finish(tier, rep: Report):
     need += ["dev:sort=False", "dev:sort=False:interior_cut:plain", "dev:sort=False:interior_cut:crease", "history:dev:sort=False",
              "dev:sort=False:some_vertex_ring_is_listed_in_another_order", "dev:face_order", "dev:sort=False:face_order",
              "dev:face_order:interior_cut:plain", "dev:face_order:interior_cut:crease"]
+    # ---- documented defaults / call forms: every entry of the pinned tables was compared with the signature, omitted alone and together
+    #      with the others, passed positionally; the options were omitted / passed positionally where their value matters
+    for callee, doc in list(DOC_SIGNATURES.items()) + list(DOC_SIGNATURES_RELIED_ON.items()):
+        need += [f"defaults:signature:{callee}:{p}" for p, _ in doc]
+    for callee, doc in DOC_SIGNATURES.items():
+        opts = [p for p, d in doc if not (isinstance(d, str) and d == REQUIRED)]
+        for p in opts:
+            need += [f"defaults:omitted_alone:{callee}:{p}", f"defaults:positional:{callee}:{p}"]
+            if len(opts) > 1:
+                need.append(f"defaults:omitted_together:{callee}:{p}")
+    need += [f"defaults:omitted_where_it_matters:{CUTTER_INIT}:{p}" for p in ("features", "verbose")]
+    need += [f"defaults:positional_where_it_matters:{CUTTER_INIT}:{p}" for p in ("features", "verbose")]
+    need += ["defaults:omitted_where_it_matters:SpanningTree.traverse:order", "defaults:omitted_where_it_matters:SpanningForest.traverse:order",
+             "defaults:verbose=True_prints_and_verbose=False_is_silent", "defaults:mesh_by_keyword", "defaults:started_by_call",
+             "defaults:cutter_took_feature_path", "defaults:forbidden_edges_matter", "defaults:forbidden_edges_separate_faces",
+             "defaults:topo:sphere", "defaults:topo:disk", "defaults:topo:bordered:b>1", "defaults:topo:closed:g>0"]
     for f in need:
         if f not in rep.flags:
             fails.append("coverage flag missing: " + f)
